@@ -15,7 +15,16 @@ ASSUMPTIONS = [
 
 
 def tasks(tier):
-    return [N.NegAcceptorTask("C10/"), N.RoleTableTask("C10/"), N.NegUnrestrictedTask("C10/"), N.TsInvariantTask("C10/")]
+    from contracts.wire_ctx import ProposedContextFromWireTask
+    return [N.NegAcceptorTask("C10/"), N.RoleTableTask("C10/"), N.NegUnrestrictedTask("C10/"), N.TsInvariantTask("C10/"),
+            ProposedContextFromWireTask("C10/"), N.NegAcceptorFamilyTask("C10/")]
+
+
+bounded_results = [{"what": "negotiate_as_acceptor executed on 2 proposed contexts x all 15 ordered selections of up to 3 transfer syntaxes on "
+                    "each side x supported/unsupported (450 configurations) and compared with the specification",
+                    "bound": "2 proposed contexts, 1 supported context, transfer-syntax lists of length <= 3, no role proposals",
+                    "cases": 450, "counted_as_proved": False,
+                    "purpose": "refutation when the inductive loop contract cannot be applied to restructured code; the proof is the inductive contract"}]
 
 
 def replay(rec):
